@@ -42,8 +42,29 @@ pub fn run_history_for(h: &History, prop: &str) -> HistoryResult {
     run_history_with(h, shadow::DEFAULT_GIANT_LIMIT, Some(prop))
 }
 
+/// Histories on which an earlier engine process of this check died (LSV_SKIP_FILE: one digest per line). They are
+/// excluded by construction so that the search goes on behind a crash that another property's check owns.
+fn skip_set() -> &'static std::collections::HashSet<u64> {
+    static SKIP: std::sync::OnceLock<std::collections::HashSet<u64>> = std::sync::OnceLock::new();
+    SKIP.get_or_init(|| {
+        std::env::var_os("LSV_SKIP_FILE")
+            .and_then(|p| std::fs::read_to_string(p).ok())
+            .map(|s| s.lines().filter_map(|l| l.trim().parse::<u64>().ok()).collect())
+            .unwrap_or_default()
+    })
+}
+
+pub fn skipped_crashing_cases() -> u64 {
+    SKIPPED.load(std::sync::atomic::Ordering::Relaxed)
+}
+static SKIPPED: std::sync::atomic::AtomicU64 = std::sync::atomic::AtomicU64::new(0);
+
 pub fn run_history_with(h: &History, giant_limit: usize, stop_prop: Option<&str>) -> HistoryResult {
     silence_panics();
+    if !skip_set().is_empty() && skip_set().contains(&crate::checks::common::digest(h)) {
+        SKIPPED.fetch_add(1, std::sync::atomic::Ordering::Relaxed);
+        return HistoryResult { failures: Vec::new(), ctx: Ctx::default(), requests: 0, faults_fired: 0, refused_giant: 0, bytes_moved: 0, steps_run: 0 };
+    }
     shadow::with(|hp| {
         hp.begin_case();
         hp.fault_plan = h.plan.faults.clone();
